@@ -108,7 +108,8 @@ def hostile_selfptr(exe, rng, i):
     img = open(p, "rb").read(); os.unlink(p)
     first = heads * secs * 2; n1 = heads * secs * 60
     f = fsck.fsck_image(img, first, n1, want_data=False)
-    node = next((k for k in f.root.kids.values() if k.name == b"victim"), None) if f.root else None
+    target = rng.choice([b"victim", b"dd", b"dd"])
+    node = next((k for k in f.root.kids.values() if k.name == target), None) if f.root else None
     if node is None: return None
     blk = bytearray(img[(first + node.block) * 512:(first + node.block + 1) * 512])
     bad_key = rng.choice([n1, n1 + 1, n1 + first - 1, n1 + rng.randrange(first)])
@@ -118,9 +119,17 @@ def hostile_selfptr(exe, rng, i):
     struct.pack_into(">I", blk, 20, (-s) & 0xffffffff)
     off = (first + node.block) * 512
     muts = [f"pokeimg 0 {off + 4} {blk[4:8].hex()}", f"pokeimg 0 {off + 20} {blk[20:24].hex()}"]
-    ops = pre + ["closedev 0"] + muts + ["opendev 0 0", "mount 0 0 0", f"open 1 0 0 {hx(b'victim')} 3", "seek 1 3000", "write 1 10 5", "close 1",
-          f"comment 0 0 {hx(b'victim')} {hx(b'c')}", f"access 0 0 {hx(b'victim')} 2", f"rename 0 0 {hx(b'victim')} {hx(b'v2')}", f"remove 0 0 {hx(b'v2')}",
-          "unmount 0 0", "closedev 0"]
+    ops = pre + ["closedev 0"] + muts + ["opendev 0 0", "mount 0 0 0"]
+    if target == b"victim":
+        ops += [f"open 1 0 0 {hx(b'victim')} 3", "seek 1 3000", "write 1 10 5", "close 1",
+                f"comment 0 0 {hx(b'victim')} {hx(b'c')}", f"access 0 0 {hx(b'victim')} 2", f"rename 0 0 {hx(b'victim')} {hx(b'v2')}", f"remove 0 0 {hx(b'v2')}"]
+    else:
+        # a directory that claims to live past the end of its partition: creating entries in it writes the directory block
+        # back to where it says it lives
+        ops += [f"chdir 0 0 {hx(b'dd')}", f"mkdir 0 0 {hx(b'sub')}", f"open 1 0 0 {hx(b'nf')} 2", "write 1 700 3", "close 1",
+                f"rename 0 0 {hx(b'nf')} {hx(b'nf2')}", f"remove 0 0 {hx(b'sub')}", "toroot 0 0",
+                f"comment 0 0 {hx(b'dd')} {hx(b'c')}", f"access 0 0 {hx(b'dd')} 2"]
+    ops += ["unmount 0 0", "closedev 0"]
     return ops
 
 def run(res):
